@@ -74,6 +74,7 @@ pub fn spec(prop: &str) -> Option<CheckSpec> {
                 Family { name: "c18", gen: gen::c18, quick: 40_000, thorough: 1_500_000, judge: Judge::Solo },
                 Family { name: "c18-mixed-c", gen: gen::c18_mixed, quick: 30_000, thorough: 1_000_000, judge: Judge::Solo },
                 Family { name: "c18-streams", gen: gen::c18_streams, quick: 400, thorough: 15_000, judge: Judge::Solo },
+                Family { name: "c18-firstuse", gen: gen::c18_firstuse, quick: 480, thorough: 20_000, judge: Judge::FirstUse },
             ],
             real: REAL_RUST.to_vec(),
             stubs: vec!["Rust cpufeatures detection cache is real but not schedulable (macro-generated private static): first-use race covered only by the process-level tier"],
